@@ -72,11 +72,15 @@ def workdir(prop):
     return d
 
 
-def capy_dump(src_name, cwd, extra_args=(), timeout=300):
+def capy_dump(src_name, cwd, extra_args=(), timeout=120):
     """capy build --verbose-binary all --no-exec; returns (rc, stdout+stderr)"""
-    p = subprocess.run([CAPY, 'build', src_name, '--mod-dir', REPO, '--verbose-binary', 'all', '--no-exec',
-                        '--color', 'never', *extra_args], cwd=cwd, capture_output=True, text=True, timeout=timeout,
-                       errors='replace')
+    try:
+        p = subprocess.run([CAPY, 'build', src_name, '--mod-dir', REPO, '--verbose-binary', 'all', '--no-exec',
+                            '--color', 'never', *extra_args], cwd=cwd, capture_output=True, text=True, timeout=timeout,
+                           errors='replace')
+    except subprocess.TimeoutExpired:
+        # a compiler that does not come back is treated like one that failed: callers bisect and report
+        return 124, 'error: the compiler timed out after %d s' % timeout
     return p.returncode, p.stdout + p.stderr
 
 
